@@ -587,3 +587,7 @@ META_SEL = (" E2, DiskIO::read_metadata on every path: blocks 0..=7 are read onc
 for _p in ("C03", "C10"):
     PROPS[_p]["level_text"] += META_SEL
     PROPS[_p]["functions"] += [IO + "::read_metadata"]
+PROPS["C16"]["level_text"] += (" ClockCache::clear: under the eviction lock, per bucket the entries' recorded sizes are summed and the bucket emptied under the bucket's own write lock, and the counter is "
+                               "decreased by exactly that sum, once.")
+PROPS["C16"]["functions"] += ["src/core/cache.rs::clear"]
+PROPS["C16"]["outside"] = "cache-on/off equivalence as executions, concurrency"
